@@ -78,6 +78,10 @@ impl World {
     }
     /// all values; for infinite leaf types: the literals in `lits` plus one fresh representative
     pub fn values(&self, t: &MTy, lits: &Lits) -> Vec<MVal> {
+        self.values_at(t, lits, true)
+    }
+    /// `top`: the type is the scrutinee itself (not nested in a tuple / constructor / option)
+    fn values_at(&self, t: &MTy, lits: &Lits, top: bool) -> Vec<MVal> {
         match t {
             MTy::Bool => vec![MVal::Bool(true), MVal::Bool(false)],
             MTy::Int => {
@@ -85,7 +89,21 @@ impl World {
                 v.sort();
                 v.dedup();
                 let fresh = (0..).map(|k| 1000 + k).find(|k| !v.contains(k)).unwrap();
-                v.push(fresh);
+                // values that alias a literal when a dispatch index is narrowed to 32 or 8 bits, and the extremes
+                let lits_only = if top { v.clone() } else { vec![] };
+                for l in lits_only {
+                    for d in [1i64 << 32, -(1i64 << 32), 3i64 << 32, 256] {
+                        let x = l.wrapping_add(d);
+                        if !v.contains(&x) {
+                            v.push(x);
+                        }
+                    }
+                }
+                for x in if top { vec![fresh, i64::MIN, i64::MAX] } else { vec![fresh] } {
+                    if !v.contains(&x) {
+                        v.push(x);
+                    }
+                }
                 v.into_iter().map(MVal::Int).collect()
             }
             MTy::Char => {
@@ -114,7 +132,7 @@ impl World {
             MTy::Tuple(ts) => self.product(ts, lits).into_iter().map(MVal::Tuple).collect(),
             MTy::Opt(t) => {
                 let mut out = vec![MVal::Opt(None)];
-                for v in self.values(t, lits) {
+                for v in self.values_at(t, lits, false) {
                     out.push(MVal::Opt(Some(Box::new(v))));
                 }
                 out
@@ -124,7 +142,7 @@ impl World {
     fn product(&self, ts: &[MTy], lits: &Lits) -> Vec<Vec<MVal>> {
         let mut out: Vec<Vec<MVal>> = vec![vec![]];
         for t in ts {
-            let vs = self.values(t, lits);
+            let vs = self.values_at(t, lits, false);
             let mut next = vec![];
             for prefix in &out {
                 for v in &vs {
